@@ -67,12 +67,25 @@ def utils_jobs(config='le', fallback=False):
     ow_get = {'post': ['C01', 'C11', 'C14'], 'safety': ['C03', 'C01', 'C14'], 'assigns': ['C01', 'C16'], 'loop': ['C01', 'C03', 'C14']}
     ow_set = {'post': ['C02', 'C05', 'C14'], 'safety': ['C03', 'C02', 'C14'], 'assigns': ['C02', 'C03', 'C16'], 'loop': ['C02', 'C03', 'C14']}
     ow_ina = {'post': ['C11'], 'safety': ['C11'], 'assigns': ['C11', 'C16'], 'loop': ['C11']}
-    jobs.append(Job('Avtp_GetField/K_get', H_UTILS % {'pre': '', 'call': 'Avtp_GetField(table, numFields, pdu, field);', 'canaries': CAN_A + CAN_I}, src,
+    # Fallbacks, used only when the loop contract cannot be attached (locals renamed, loop restructured): the same contract with
+    # the loop unwound 4 times under an unwinding assertion.  The field loop runs at most 3 times (offset <= 31, bits <= 64), so
+    # the unwinding assertion closes it completely; a rewritten loop that needs more iterations ends "undecided".
+    FBTXT = ('FALLBACK (loop contract not attachable): the quadlet loop is unwound 4 times with an unwinding assertion - complete for the '
+             'at most 3 iterations a descriptor with offset <= 31 and bits <= 64 needs')
+    src_get = H_UTILS % {'pre': '', 'call': 'Avtp_GetField(table, numFields, pdu, field);', 'canaries': CAN_A + CAN_I}
+    src_set = H_UTILS % {'pre': '__CPROVER_assume(active);', 'call': 'Avtp_SetField(table, numFields, pdu, field, value);', 'canaries': CAN_A}
+    ow_get_fb = dict(ow_get, unwind=ow_get['loop'])
+    ow_set_fb = dict(ow_set, unwind=ow_set['loop'])
+    fb_get = Job('Avtp_GetField/K_get~unwinding-fallback', src_get, src, enforce='Avtp_GetField', owners=ow_get_fb, function='Avtp_GetField',
+                 kind='utils-fallback', config=config, timeout=1500, solver='kissat', unwind={'Avtp_GetField': 4}, bounded=FBTXT)
+    fb_set = Job('Avtp_SetField/K_set~unwinding-fallback', src_set, src, enforce='Avtp_SetField', replace=['Avtp_GetField'], owners=ow_set_fb,
+                 function='Avtp_SetField', kind='utils-fallback', config=config, timeout=2400, solver='kissat', unwind={'Avtp_SetField': 4}, bounded=FBTXT)
+    jobs.append(Job('Avtp_GetField/K_get', src_get, src,
                     enforce='Avtp_GetField', loop_contracts=lc_get, owners=ow_get, function='Avtp_GetField',
-                    kind='utils', config=config, timeout=900, solver='kissat'))
-    jobs.append(Job('Avtp_SetField/K_set', H_UTILS % {'pre': '__CPROVER_assume(active);', 'call': 'Avtp_SetField(table, numFields, pdu, field, value);', 'canaries': CAN_A}, src,
+                    kind='utils', config=config, timeout=900, solver='kissat', fallback=fb_get))
+    jobs.append(Job('Avtp_SetField/K_set', src_set, src,
                     enforce='Avtp_SetField', replace=['Avtp_GetField'], loop_contracts=lc_set, owners=ow_set, function='Avtp_SetField',
-                    kind='utils', config=config, timeout=1500, solver='kissat'))
+                    kind='utils', config=config, timeout=1500, solver='kissat', fallback=fb_set))
     # inactive writer: the loop is unreachable under this contract; its loop contract is still
     # supplied so that no loop is left without one.
     jobs.append(Job('Avtp_SetField/K_set_inactive', H_UTILS % {'pre': '__CPROVER_assume(!active);', 'call': 'Avtp_SetField(table, numFields, pdu, field, value);', 'canaries': CAN_I}, src,
